@@ -266,7 +266,7 @@ def run_variants(props: Optional[List[str]] = None, ids: Optional[List[str]] = N
             work.append((v, p))
     res = []
     if work:
-        with mp.get_context("fork").Pool(min(jobs, len(work))) as pool:
+        with mp.get_context("fork").Pool(min(jobs, len(work)), maxtasksperchild=24) as pool:
             res = pool.map(_run_one, work, chunksize=1)
     summary = {"breaking_expected": 0, "breaking_killed": 0, "neutral_runs": 0, "neutral_silent": 0, "stale": 0, "failures": []}
     byid = {v["id"]: v for v in vs}
